@@ -274,7 +274,8 @@ def mean_prediction(y_true, y_pred, sample_weight=None) -> float:
     y_p = _convert_to_ndarray_and_squeeze(y_pred)
     s_w = np.ones(len(y_p))
     if sample_weight is not None:
-        s_w = _convert_to_ndarray_and_squeeze(sample_weight)
+        # weights in a narrow integer dtype must not overflow in the dot product
+        s_w = _convert_to_ndarray_and_squeeze(sample_weight).astype(np.float64)
 
     return np.dot(y_p, s_w) / s_w.sum()
 
@@ -307,6 +308,7 @@ def selection_rate(y_true, y_pred, *, pos_label: Any = 1, sample_weight=None) ->
 
     s_w = np.ones(len(selected))
     if sample_weight is not None:
-        s_w = _convert_to_ndarray_and_squeeze(sample_weight)
+        # weights in a narrow integer dtype must not overflow in the dot product
+        s_w = _convert_to_ndarray_and_squeeze(sample_weight).astype(np.float64)
 
     return np.dot(selected, s_w) / s_w.sum()
